@@ -20,7 +20,7 @@ RULE = ("kind 0: generated programs (raise site x surrounding statements from a 
         "full x ignore pattern x working/home directory; kind 1: the highlighter on real Python files of the repository and the standard "
         "library; kind 2: compact on frame sequences. non-trivial = distinct (site, origin, recursion, verbosity, message class) / file / "
         "sequence")
-THEOREMS = []
+THEOREMS = ["line_numbers_consecutive", "marks_exactly_the_failing_line", "snippet_is_a_window", "snippet_contains_failing_line", "row_shown", "one_line_per_row", "compact_keeps_frames", "listed_frames_are_kept", "ignored_frames_are_invisible", "debug_keeps_every_frame", "stack_trace_lists_frames", "full_report_shape", "simple_report_shape", "text_is_shown_as_it_is", "named_text_is_shown_as_it_is", "line_shows_its_texts", "decorated_line_shows_the_same_text", "line_never_makes_the_formatter_fail", "highlighted_line_shows_the_source"]
 TRUSTED = ["tokenize, inspect and crashtest (Inspector, Frame) are outside clikit: their outputs (token streams, frames, file contents) are "
            "INPUTS of the model, taken from the same run; the hypotheses the theorems put on token streams (wf_tokens) are checked on "
            "every token stream of the run by the harness (validated, not proved); FrameCollection.compact is modelled and tied (kind 2)",
@@ -68,6 +68,7 @@ POOL = [
     ["\\", "FIRST = 1  # the first token of the file is on line 2"],
     ["# page break below", "\f", "AFTER_FF = 1"],
     ["U = 'line\u2028sep' + 'nel\x85x'  # \x1c \x1d \x1e are not line ends for Python"],
+    ["BR = f'{{braces}} {1:>{2}} {{'"],
 ]
 BODY = [
     ["x = 1"],
@@ -558,6 +559,54 @@ def _src_lines(text):
     return src
 
 
+def stream_hypotheses(tok):
+    """The hypotheses of theorem row_shown / one_line_per_row, checked on a token stream (wire-form tokens):
+    returns (error or None, number of rows the theorem applies to)."""
+    cur = 1
+    for t in tok:                                   # rows_ok
+        k, s, sr, sc, er, ec = t[0], t[3], t[4], t[5], t[6], t[7]
+        if sr == 0:
+            continue
+        if k == 0:
+            break
+        if not (cur <= sr <= er):
+            return "rows-not-monotone", 0
+        if sr < er and k != 5 and len(unS(s).split("\n")) != er - sr + 1:
+            return "multi-line-token-line-breaks", 0
+        cur = sr if k == 5 else er
+    rows = {}
+    multi = set()
+    for t in tok:
+        if t[4] == 0 or t[0] == 0:
+            continue
+        if t[4] < t[6]:
+            for r_ in range(t[4], t[6] + 1):
+                multi.add(r_)
+        rows.setdefault(t[4], []).append(t)
+    n = 0
+    for r_, ts in rows.items():
+        if r_ in multi or not any(t[0] != 5 for t in ts):
+            continue
+        ln = ts[0][8]
+        if NLc in ln[:-1]:
+            return "physical-line-with-inner-line-break", 0
+        c = 0
+        for t in ts:
+            if t[8] != ln or t[6] != r_ or not (0 <= t[5] <= t[7]):
+                return "token-not-on-its-line", 0
+            if t[0] != 5:
+                if t[5] < c:
+                    return "tokens-overlap", 0
+                if t[3] != ln[t[5]:t[7]]:
+                    return "token-string-is-not-its-slice", 0
+                c = t[7]
+        n += 1
+    return None, n
+
+
+NLc = 10
+
+
 def check_snippet(block, text, tok, lineno, where):
     """block: [(marked, number, shown)] consecutive snippet lines; text: the source or None"""
     nums = [n for _, n, _ in block]
@@ -592,6 +641,9 @@ def oracle(c, o):
             return None      # tokenize refuses the file: outside the claim
         if o["status"] is not None:
             return "highlighter-raises:" + type(o["status"]).__name__
+        herr, _ = stream_hypotheses(o["tok"])
+        if herr:
+            return "token-stream-hypothesis-fails:" + herr
         from clikit.formatter import PlainFormatter
         pf = PlainFormatter()
         block = []
@@ -615,6 +667,11 @@ def oracle(c, o):
         return None
     if o["status"] is not None:
         return "render-raises:" + type(o["status"]).__name__
+    for fl_ in o["files"]:
+        if isinstance(fl_["tok"], list):
+            herr, _ = stream_hypotheses(fl_["tok"])
+            if herr:
+                return "token-stream-hypothesis-fails:" + herr
     out = o["out"]
     if c["fmt"] == "ansi":
         # decorated bytes: the tie compares them; the property is read on the undecorated text, which must be the same text
